@@ -101,6 +101,9 @@ TREE_KINDS = {"def", "op", "opname", "var", "named", "list", "endlist", "nonnull
 LEX_SEEDS = [
     "Q Q Q a BS Q Q Q b Q Q Q", "Q Q Q a LF SP LF SP SP b Q Q Q", "Q Q Q a Q", "0 1", "MINUS 0", "Q BS u D 8 0 0 Q", "Q BS u D 0 0 0 Q",
     "Q U4 a Q", "U4", "a U4", "Q Q Q U4 LF Q Q Q", "Q a BS n Q", "Q BS b BS f BS r BS t BS SLASH BS BS BS Q Q", "Q BS x Q", "Q BS u 0 0 e Q", "1 DOT 8 e MINUS 1", "1 DOT", "1 e", "Q a LF Q", "Q Q Q LF SP SP a LF SP SP SP b LF Q Q Q",
+    # Unicode White_Space that is NOT GraphQL white space: content, never indentation, never a blank line, never a line break
+    "Q Q Q a LF SP NB b LF SP SP a Q Q Q", "Q Q Q LF NB a LF SP SP b LF Q Q Q", "Q Q Q a LF LS b LF SP LS Q Q Q", "Q NB a Q", "Q Q Q NB Q Q Q",
+    "Q Q Q LF SP NB LF SP SP a Q Q Q", "Q Q Q a LF SP SP b LF SP NB Q Q Q", "Q Q Q a LF TAB NB LF TAB TAB b Q Q Q", "NB", "a NB b", "Q LS Q",
 ]
 
 
